@@ -226,6 +226,13 @@ def memInput (p : PSt) : Option Latch :=
   | none => p.l2
   | some st => if st.k = 2 then none else p.l2
 
+/-- `pipeline_registers[1]` after an exception in a *stalled* EX stage: the preserved register that
+    was substituted as its input is not put back (`self.pipeline_registers[index - 1] = tmp` is skipped). -/
+def exFaultL1 (p : PSt) : Option Latch :=
+  match p.stalled with
+  | none => p.l1
+  | some st => if st.k = 2 then st.p1 else p.l1
+
 def latchStall (l : Option Latch) : Bool := match l with | some x => x.stall | none => false
 def latchFlush (l : Option Latch) : Option Int := match l with | some x => x.flush | none => none
 def setFlag (l : Option Latch) : Option Latch := l.map fun x => { x with flagged := true }
@@ -260,17 +267,17 @@ def finishStep (p : PSt) (s : St) (n0 n1 n2 n3 n4 : Option Latch) : PSt :=
   -- flush (highest latch first)
   match latchFlush n4 with
   | some a =>
-    { p with st := { s1 with flushes := s1.flushes + 1, pc := a },
+    { p with st := { s1 with flushes := s1.flushes + 1, pc := a % 4294967296 },
              l0 := none, l1 := none, l2 := none, l3 := none, l4 := n4, stalled := none }
   | none =>
     match latchFlush n3 with
     | some a =>
-      { p with st := { s1 with flushes := s1.flushes + 1, pc := a },
+      { p with st := { s1 with flushes := s1.flushes + 1, pc := a % 4294967296 },
                l0 := none, l1 := none, l2 := none, l3 := n3, l4 := n4, stalled := none }
     | none =>
       match latchFlush n2 with
       | some a =>
-        { p with st := { s1 with flushes := s1.flushes + 1, pc := a },
+        { p with st := { s1 with flushes := s1.flushes + 1, pc := a % 4294967296 },
                  l0 := none, l1 := none, l2 := n2, l3 := n3, l4 := n4,
                  stalled := match stalled2 with
                    | none => none
@@ -294,7 +301,9 @@ def step (p : PSt) : StepOut :=
   -- EX (index 2)
   let ex := exStage s2 (exInput p) p.l2 p.l3
   match ex.fault with
-  | some f => { p := { p with st := ex.st }, fault := some f }
+  | some f =>
+    -- the exception skips the line that restores the substituted input register of a stalled EX
+    { p := { p with st := ex.st, l1 := exFaultL1 p }, fault := some f }
   | none =>
     -- MEM (index 3)
     let me := memStage ex.st (memInput p)
@@ -338,7 +347,7 @@ def splitStep (s : St) : Rv.StepOut :=
             | some a => some a
             | none => latchFlush ex.latch
         match target with
-        | some a => { st := { s4 with pc := a }, fault := none }
+        | some a => { st := { s4 with pc := a % 4294967296 }, fault := none }
         | none => { st := s4, fault := none }
 
 end ArchSim.Pipe
